@@ -130,6 +130,12 @@ def rule_r2(ctx):
     it = [n for n in g.nodes if n.kind == "iter"]
     if it and "active_channels" in norm(it[0].ast.iter):
         ctx.r.ok(rid, "maintenance visits every active channel", f.loc(it[0].ast))
+        # ... every one: nothing leaves the scan early (channels are in no particular activity order)
+        early = [x for x in ast.walk(it[0].ast) if isinstance(x, (ast.Break, ast.Return))]
+        if early:
+            ctx.r.violation(rid, key_of(f, None, "scan-leaves-early"), "the maintenance scan stops at %s: channels after that one are never examined, an idle connection behind an active one is never reaped" % norm(early[0]), f.loc(early[0]))
+        else:
+            ctx.r.ok(rid, "the scan never leaves the loop early", f.loc(it[0].ast))
     else:
         ctx.r.violation(rid, key_of(f, None, "maintenance-scope"), "maintenance does not iterate over the active channels", f.loc())
     # nothing else in maintenance closes
